@@ -180,3 +180,70 @@ def inplace_writes_to_attributes(methods, attrs):
         for node, text in inplace_effects(fn.node, al, roots=names):
             out.append((fn, node, text))
     return out
+
+
+# ---------------------------------------------------------------------------------------------------------------------
+# element type inherited from the caller
+
+_KEEP = ("dot", "cross", "array", "asarray", "subtract", "add", "multiply", "copy", "transpose", "reshape", "vdot", "inner", "outer")
+
+
+def inherits_input_dtype(e, inputs):
+    """True if the value of expression e has the element type of the function's inputs: built only from parameters (and
+    locals already classified so, `inputs`), their elements and attributes, integer constants and the operations + - *
+    // % and numpy calls that keep the element type (dot, cross, array/asarray without dtype).  A float constant, a true
+    division, a call of anything else makes the value floating point (or unknown): False."""
+    if isinstance(e, ast.Name):
+        return e.id in inputs
+    if isinstance(e, (ast.Subscript, ast.Attribute)):
+        return inherits_input_dtype(e.value, inputs)
+    if isinstance(e, ast.Constant):
+        return isinstance(e.value, int) and not isinstance(e.value, bool)
+    if isinstance(e, ast.UnaryOp):
+        return inherits_input_dtype(e.operand, inputs)
+    if isinstance(e, ast.BinOp):
+        if isinstance(e.op, (ast.Add, ast.Sub, ast.Mult, ast.FloorDiv, ast.Mod)):
+            a, b = inherits_input_dtype(e.left, inputs), inherits_input_dtype(e.right, inputs)
+            # an integer constant does not decide; at least one side must come from the inputs
+            def from_inputs(x):
+                return any(isinstance(y, ast.Name) and y.id in inputs for y in ast.walk(x))
+            return a and b and (from_inputs(e.left) or from_inputs(e.right))
+        return False
+    if isinstance(e, ast.Call):
+        fn = e.func.attr if isinstance(e.func, ast.Attribute) else (e.func.id if isinstance(e.func, ast.Name) else "")
+        if fn in _KEEP and not any(k.arg == "dtype" for k in e.keywords) and e.args:
+            return all(inherits_input_dtype(a, inputs) for a in e.args)
+        return False
+    return False
+
+
+def inplace_on_inherited_dtype(func_node):
+    """In-place true divisions (`x /= ...`) and in-place operations with a floating-point operand whose target has the
+    element type of the function's inputs (statement order; a re-binding to a floating-point value ends the dependence).
+    On integer input numpy refuses the cast (UFuncTypeError): `R = r1 - r2; R /= norm` works for float positions only.
+    Returns [(AugAssign node, target name, reason)]."""
+    params = {a.arg for a in func_node.args.args + func_node.args.kwonlyargs} - {"self"}
+    inputs = set(params)
+    out = []
+    stmts = sorted((x for x in ast.walk(func_node) if isinstance(x, (ast.Assign, ast.AugAssign)) and x is not func_node),
+                   key=lambda x: (x.lineno, x.col_offset))
+    for st in stmts:
+        if isinstance(st, ast.Assign):
+            for t_ in st.targets:
+                if isinstance(t_, ast.Name):
+                    if inherits_input_dtype(st.value, inputs):
+                        inputs.add(t_.id)
+                    else:
+                        inputs.discard(t_.id)
+        else:
+            t_ = st.target
+            b_ = t_
+            while isinstance(b_, ast.Subscript):
+                b_ = b_.value
+            if isinstance(b_, ast.Name) and b_.id in inputs:
+                floaty = isinstance(st.op, ast.Div) or (
+                    isinstance(st.op, (ast.Mult, ast.Add, ast.Sub)) and any(
+                        isinstance(y, ast.Constant) and isinstance(y.value, (float, complex)) for y in ast.walk(st.value)))
+                if floaty:
+                    out.append((st, b_.id, "true division" if isinstance(st.op, ast.Div) else "floating-point operand"))
+    return out, params
